@@ -428,6 +428,7 @@ func c16Read(c *Ctx) {
 		} else {
 			r.Unknown("C16/R4", "file_storage.GetMessages:filter", "single append in the scan loop", c.Pos(fn.Pos()), sprintf("%d appends", len(apps)))
 		}
+		freshDecodeTarget(c, "C16/R4", "file_storage.GetMessages:fresh-decode-target", fn)
 		// scanner error is reported
 		errs := ssax.CallsTo(fn, "bufio.(Scanner).Err")
 		r.Check(len(errs) > 0, "C16/R4", "file_storage.GetMessages:scan-error", "a read/oversize error is reported, not turned into a short result", c.Pos(fn.Pos()), "Scanner.Err() is not consulted")
@@ -515,4 +516,33 @@ func c16UpCounterSkip(fn *ssa.Function) ssa.Instruction {
 		}
 	}
 	return nil
+}
+
+
+// freshDecodeTarget: every json.Unmarshal in the read loop of a board reader decodes into a value allocated inside that
+// loop. One variable shared by all lines keeps the fields a line omits from the previous line — what a reader returns
+// would then depend on where the poll batch starts, not only on the log.
+func freshDecodeTarget(c *Ctx, rule, key string, fn *ssa.Function) {
+	r := c.R
+	ums := ssax.CallsTo(fn, "encoding/json.Unmarshal")
+	ok := len(ums) > 0
+	detail := sprintf("%d json.Unmarshal calls", len(ums))
+	for _, u := range ums {
+		tgt := u.Common().Args[1]
+		if mi, isMI := tgt.(*ssa.MakeInterface); isMI {
+			tgt = mi.X
+		}
+		al, isAlloc := tgt.(*ssa.Alloc)
+		if !isAlloc {
+			ok, detail = false, "decode target is "+ssax.Path(tgt)
+			continue
+		}
+		inLoop := ssax.ReachableFrom(fn, u.(ssa.Instruction), u.(ssa.Instruction), nil, nil)
+		allocInLoop := ssax.ReachableFrom(fn, al, al, nil, nil)
+		if inLoop && !allocInLoop {
+			ok, detail = false, "the decode target "+al.Comment+" is allocated once, outside the read loop (at "+c.PosOf(al)+")"
+		}
+	}
+	r.Check(ok, rule, key, "every line is decoded into a fresh value", c.Pos(fn.Pos()),
+		detail+": a field that a line omits keeps the value of the previous line of the same poll, so the entries returned depend on the batch boundaries")
 }
